@@ -35,7 +35,7 @@ BLOCKING_HANDOFF = ('std::thread::join::JoinHandle::join', 'std::thread::JoinHan
                     'lock_api::condvar::Condvar::wait', 'parking_lot::condvar::Condvar::wait',
                     'tokio::runtime::runtime::Runtime::block_on', 'tokio::runtime::handle::Handle::block_on',
                     'tokio::sync::mpsc::bounded::Receiver::blocking_recv', 'tokio::sync::mpsc::bounded::Sender::blocking_send',
-                    'std::sync::barrier::Barrier::wait', 'std::thread::functions::sleep')
+                    'std::sync::barrier::Barrier::wait')
 
 
 class Acq:
@@ -265,39 +265,8 @@ class LockModel:
 
     # ------------------------------------------------------------ call graph (synchronous may-call)
     def _scan_calls(self):
-        prog = self.prog
-        for b in prog.bodies.values():
-            per_bb = defaultdict(list)
-            passed = set()
-            for c in b.calls:
-                spawn = c.callee is not None and c.is_(*SPAWN_LIKE)
-                for g in c.gc:
-                    gb = prog.bodies.get(g) or prog.resolve_local(strip_generics(g))
-                    if gb is not None:
-                        passed.add(gb.id)
-                        if not spawn:
-                            per_bb[c.bb].append(gb)
-                if spawn or c.callee is None:
-                    continue
-                lb = prog.resolve_local(c.callee)
-                if lb is not None:
-                    per_bb[c.bb].append(lb)
-                elif c.trait and c.orig:
-                    # unresolved trait method: fan out to every impl in the analysed crates
-                    for ip in prog.trait_impls.get(c.orig, []):
-                        ib = prog.resolve_local(ip)
-                        if ib is not None:
-                            per_bb[c.bb].append(ib)
-            # closures / coroutines created here but not visibly passed to a call: treat creation as the call
-            for i, blk in enumerate(b.blocks):
-                for s in blk['s']:
-                    rv = s.get('rv')
-                    if rv and rv['k'] == 'agg' and rv.get('ak') in ('closure', 'coroutine', 'coroutine_closure'):
-                        cb = prog.bodies.get(rv['def'])
-                        if cb is not None and cb.id not in passed:
-                            per_bb[i].append(cb)
-            if per_bb:
-                self.sync_calls[b.id] = per_bb
+        from .callgraph import sync_calls
+        self.sync_calls = sync_calls(self.prog)
 
     # ------------------------------------------------------------ guard dataflow
     def _is_guard_local(self, body, l):
